@@ -38,5 +38,17 @@ def build(tier):
         o = C10.ob(cmd, cls, 2, doc, timeout=300 if quick else 1200)
         o.name = o.name.replace('C10.a', 'C07.c escape sequences stay text (no line break enters a field)')
         obs.append(o)
+    # C07.d the white space that nests a body under its directive inside a doccomment (spaces or a TAB right after the leader's one
+    # space / right after '#') survives cleaning: clean_doc_lines on canonical blocks == the specification text, every character symbolic
+    tup = lambda n: "Tuple[" + ", ".join(["int"] * max(1, n)) + "]"
+    for (n, k, l) in (((2, 2, 3),) if quick else ((2, 2, 3), (3, 2, 3))):
+        obs.append(vf.CH(f"C07.d doccomment lines keep their own leading white space (clean canonical n={n} k<={k} L<={l})", "c01_clean.py",
+                         dict(N=n, K=k, L=l, LEADERLESS=False, FIRSTLINE=False, NOSPACE=False, NCP=n * l, MT=tup(n), IT=tup(k), PAD=0, PADIND=""),
+                         timeout=240 if quick else 2400, encodes=["cminx.aggregator.DocumentationAggregator.clean_doc_lines"],
+                         symbolic="indent in {' ','\\t'}^<=k; n texts of <=L arbitrary code points (a tab or spaces first included); all lengths symbolic", bound=f"n={n}, k<={k}, L<={l}"))
+    obs.append(vf.CH("C07.d doccomment lines written '#'+text keep a leading TAB or other white space (clean n=2 k<=2 L<=3, no space after the leader)", "c01_clean.py",
+                     dict(N=2, K=2, L=3, LEADERLESS=False, FIRSTLINE=False, NOSPACE=True, NCP=6, MT=tup(2), IT=tup(2), PAD=0, PADIND=""),
+                     timeout=240 if quick else 2400, encodes=["cminx.aggregator.DocumentationAggregator.clean_doc_lines"],
+                     symbolic="as above; the first character of a text is anything but a space", bound="n=2, k<=2, L<=3"))
     obs.append(c07b.ob_docutils())
     return dict(obligations=obs, explanation="x", assumptions=[])
